@@ -7,6 +7,7 @@
 import GoHeader.Oracle.C01
 import GoHeader.Oracle.C02
 import GoHeader.Oracle.Store
+import GoHeader.Oracle.C11
 open GoHeader GoHeader.Oracle
 
 def evalLine (line : String) : Option Verdict :=
@@ -16,6 +17,7 @@ def evalLine (line : String) : Option Verdict :=
     match ins with
     | "C01" :: rest => some (evalC01 rest outs)
     | "C02" :: rest => some (evalC02 rest outs)
+    | "C11" :: rest => some (evalC11 rest outs)
     | _ => some (.bad "unknown property tag")
 
 structure DAcc where
